@@ -271,6 +271,14 @@ func (s *Sandbox) imageImportTar(ls *lua.LState) int {
 		}
 		defer done()
 	}
+	s.log.Info("Import image",
+		slog.String("script", s.name),
+		slog.String("target", tgt.r.CommonName()),
+		slog.String("file", file),
+		slog.Bool("dry-run", s.dryRun))
+	if s.dryRun {
+		return 0
+	}
 	//#nosec G304 command is run by a user accessing their own files
 	rs, err := os.Open(file)
 	if err != nil {
